@@ -7,6 +7,7 @@ import (
 	"os"
 	"path/filepath"
 	"strings"
+	"sync"
 	"testing"
 	"time"
 	"unicode/utf8"
@@ -295,6 +296,14 @@ func TestC12(t *testing.T) {
 			t.Fatal(err)
 		}
 		run.Case(true, 1)
+		if len(c.Ops) == 1 && c.Ops[0].Kind == "concurrent-stores" {
+			run.Case(true, 2)
+			if err := concurrentStores(run.Seed, 6000); err != nil {
+				run.Violation(c, err.Error())
+				t.Fatalf("replay fails: %v", err)
+			}
+			return
+		}
 		record(c)
 		if err := execute(c); err != nil {
 			run.Violation(c, err.Error())
@@ -311,6 +320,63 @@ func TestC12(t *testing.T) {
 			}
 		})
 	})
+	if t.Failed() {
+		return
+	}
+	t.Run("concurrent-stores", func(t *testing.T) {
+		// several clients of one process (one per data centre) save their sessions at the same time, each to its own
+		// file through its own loader: what each reads back - through a fresh loader - is what it stored
+		if err := concurrentStores(run.Seed+uint64(run.Shard)*977, run.Pick(300, 6000)); err != nil {
+			p := run.ViolationNamed("concurrent-stores", Case{Ops: []Op{{Kind: "concurrent-stores"}}}, err.Error())
+			t.Fatalf("violation (replay %s): %v", p, err)
+		}
+	})
+}
+
+func concurrentStores(seed uint64, rounds int) error {
+	root, err := os.MkdirTemp("", "verif-c12c-")
+	if err != nil {
+		return nil
+	}
+	defer os.RemoveAll(root)
+	const workers = 6
+	errs := make(chan error, workers)
+	var wg sync.WaitGroup
+	for w := 0; w < workers; w++ {
+		wg.Add(1)
+		go func(w int) {
+			defer wg.Done()
+			p := filepath.Join(root, fmt.Sprintf("dc%d-session.json", w))
+			l := session.NewFromFile(p)
+			for r := 0; r < rounds; r++ {
+				sd := seed*1000003 + uint64(w)*7919 + uint64(r)
+				// same lengths in every worker (whole documents can be mistaken for one another), sometimes different ones
+				hostLen := 14
+				if r%5 == 4 {
+					hostLen = 8 + int(hx.DetU64(sd+9)%30)
+				}
+				want := &Sess{Key: hx.Det(sd, 256), Hash: hx.Det(sd+1, 8), Salt: int64(hx.DetU64(sd + 2)), Host: fmt.Sprintf("%0*d:443", hostLen-4, w*1000+r%1000)}
+				if err := l.Store(toSession(want)); err != nil {
+					errs <- fmt.Errorf("client %d, store %d: Store failed while %d other loaders store to other files: %v", w, r, workers-1, err)
+					return
+				}
+				got, err := session.NewFromFile(p).Load()
+				if err != nil {
+					errs <- fmt.Errorf("client %d, store %d: what was stored cannot be read back (%d other loaders store to other files at the same time): %v", w, r, workers-1, err)
+					return
+				}
+				if err := same(got, want); err != nil {
+					errs <- fmt.Errorf("client %d, store %d, with %d other loaders storing to other files at the same time: %v", w, r, workers-1, err)
+					return
+				}
+			}
+		}(w)
+	}
+	wg.Wait()
+	close(errs)
+	run.Case(true, evid.Hash("concurrent-stores", seed), "concurrent-stores")
+	run.Class("concurrent-stores:round-trips", int64(workers*rounds))
+	return <-errs
 }
 
 // ---------- resume: a client started on a store that holds a session ----------
